@@ -84,6 +84,20 @@ pub fn generate(g: &mut Gen) {
             g.push(format!("obj.loss {} {} {} {}", o, clamp_tok(c), qt(&to3(&p)), qt(&to3(&t))), Tol::Tight, &format!("{}/near-equal/3d", o), true);
         }
     }
+    // large operands a small distance apart (the loss is small against the operands: computed from the differences,
+    // it is accurate relative to ITSELF)
+    for o in ["ae", "mae", "mse", "rmse"] {
+        for base in [4096.0f32, 1.0e4, 3.0e5, 1.0] {
+            let t: Vec<f32> = (0..6).map(|i| base + (i as f32) * base / 64.0).collect();
+            let p: Vec<f32> = t.iter().enumerate().map(|(i, v)| v + [0.25f32, -0.5, 0.125, 0.0, 1.0, -0.25][i] * (base / 4096.0).max(2.0f32.powi(-10))).collect();
+            for c in [None, Some((-0.5f32, 0.25f32))] {
+                let (p1, t1) = (Tensor::single(p.clone()), Tensor::single(t.clone()));
+                g.push(format!("obj.loss {} {} {} {}", o, clamp_tok(c), qt(&p1), qt(&t1)), Tol::Tight, &format!("{}/large-near-equal/1d", o), true);
+                let to3 = |v: &Vec<f32>| Tensor::triple(vec![v.chunks(3).map(|r| r.to_vec()).collect()]);
+                g.push(format!("obj.loss {} {} {} {}", o, clamp_tok(c), qt(&to3(&p)), qt(&to3(&t))), Tol::Tight, &format!("{}/large-near-equal/3d", o), true);
+            }
+        }
+    }
     // tiny (but non-zero) targets of the probabilistic objectives: below, at and just above the clamping epsilon, subnormal
     // — a zero-target rule applies to targets that ARE zero only; all-tiny vectors make the tiny terms the whole loss
     for o in ["kl", "bce", "ce"] {
